@@ -84,6 +84,14 @@ func gen(g *zv.Gen) {
 			g.Emitf("c26 live %d %d %d", r.U64()>>1, p[0], p[1])
 		}
 	}
+	// the exporter of live connections queried repeatedly on both ends (full and resumed handshakes)
+	for rep := g.N(1, 4); rep > 0; rep-- {
+		for _, p := range livePairs() {
+			for mode := 0; mode <= 1; mode++ {
+				g.Emitf("c26 livex %d %d %d %d", r.U64()>>1, p[0], p[1], mode)
+			}
+		}
+	}
 	versions := []int{0x0301, 0x0302, 0x0303}
 	bl := boundaryLens()
 	var lens []int // every output length 0..512
@@ -205,5 +213,7 @@ func gen(g *zv.Gen) {
 		g.Emitf("c26 fin13 %d %s %s", s, zv.Hex(rbytes(r)), zv.Hex(r.Bytes(r.Intn(150))))
 		g.Emitf("c26 ekm13 %d %s %s %s %s %d", s, zv.Hex(rbytes(r)), zv.Hex(r.Bytes(r.Intn(100))), zv.Hex(rlabel(r, labels12)), zv.Hex(r.Bytes(r.Intn(40))), rn()%300)
 	}
+	// 5. the derived closures / running hashes used the way a connection uses them: many queries on ONE object
+	genSeq(g, suites, suites13, rn)
 	_ = fmt.Sprint
 }
